@@ -241,6 +241,40 @@ def run(ctx):
                 return False, 'segment derivative called with n=%r' % (nn,)
             return decide_all_equal([('local parameter', a[0], t_of(k_)), ('value', r, Rat.csym('DN%d' % k_) / seg_len(k_) ** n)])
         ob('R15.4').run(fpd, 'Path.derivative(T, n=%d) == seg.derivative(t, n)/seg.length()**n' % n, th_pd, judge_pd, opts=wrap_opts)
+    # every segment class: curvature(t) is |x'y'' - y'x''| / |z'|^3 of ITS OWN derivative() (which R15.2/R15.5/C03 tie to point());
+    # decided with derivative() replaced by symbols, so a closed form that bypasses the derivatives is judged through point()
+    for cname in ('QuadraticBezier', 'CubicBezier', 'Arc'):
+        fcv = mdl.func('path.%s.curvature' % cname)
+
+        def th_cv(it, cname=cname):
+            if cname == 'Arc':
+                seg = sym_arc(it, 'A', True, False)
+            else:
+                seg = it.construct('path.' + cname, *cpoints({'QuadraticBezier': 3, 'CubicBezier': 4}[cname]))
+            used = []
+
+            def dh(it2, a, k):
+                n_ = k.get('n', a[2] if len(a) > 2 else 1)
+                used.append(n_)
+                return D1 if n_ == 1 else D2
+            it.call_hooks['path.%s.derivative' % cname] = dh
+            return it.call_method(seg, 'curvature', TT), list(used), seg, it
+
+        def judge_cv(v, cname=cname):
+            r, used, seg, it = v
+            if sorted(set(used)) == [1, 2]:
+                return decide_equal(r, kappa)
+            if used:
+                return False, 'derivatives used: %s' % used
+            # a closed form: compare with the definition applied to the segment's own point()
+            del it.call_hooks['path.%s.derivative' % cname]
+            z = to_rat(it.call_method(seg, 'point', TT))
+            z1, z2 = nderiv(z, 't', 1), nderiv(z, 't', 2)
+            exp = apply_fn('abs', z1.real() * z2.imag() - z1.imag() * z2.real()) / apply_fn('sqrt', z1.real() ** 2 + z1.imag() ** 2) ** 3
+            ok, d = decide_equal(r, exp)
+            return ok, '' if ok is True else 'closed-form curvature differs from |x\'y\'\' - y\'x\'\'|/|z\'|^3 of point(): ' + d
+        ob('R15.4').run(fcv, '%s.curvature(t) is the curvature of its own derivatives' % cname, th_cv, judge_cv,
+                        allowed_raises=('AssertionError',), opts=arc_opts(mdl, dict(noerr)) if cname == 'Arc' else noerr)
     flc = mdl.func('path.Line.curvature')
     ob('R15.4').run(flc, 'Line.curvature == 0', lambda it: it.call_method(it.construct('path.Line', *P), 'curvature', TT),
                     lambda v: decide_equal(v, 0))
